@@ -32,6 +32,10 @@ why_missed = {
  "S124": "records made by the library's own mutators were never fed back to the decoder monitors in C01's workload; no content sizes around 55/56", "S127": "a re-used builder was never rebuilt after a call that changes only the sequence number",
  "S130": "the node id was not held against the carried key on the state a FAILING update leaves; no signer faults in C10's workload", "S131": "no secrets that are themselves well-formed DER documents", "S133": "wrong-length inputs were patterned bytes only, never seed||public key",
  "S135": "alone vs. with-suffix compared Ok/Err only, not the error value; no custom-scheme records shorter than 64 bytes",
+ "S137": "C09's workload never used two key types back to back in one process and had no long-signature scheme", "S139": "no client list with a LIST where the build string belongs",
+ "S140": "no builder that fails a build, is corrected and is built again", "S144": "only == was evaluated, never !=", "S145": "no initial record at 2^63-1 (a panic there is a C03 event: caught by C03's dev layer once the start value existed)",
+ "S149": "threads only decoded bytes, they never parsed texts", "S150": "no owned String with excess capacity through from_value", "S151": "the 'invalid' 33-byte secp256k1 entry of the two-key workload (02 02 .. 02) is in fact a curve point",
+ "S152": "no workload with several threads that each use a different key",
  "S77": "multi-byte characters only at one offset and length", "S78": "only 9 non-hex characters tried", "S80": "no back-to-back imports of permuted seeds", "S81": "no text-looking secrets", "S84": "no non-canonical small-order ed25519 encodings",
 }
 rows = []
